@@ -21,12 +21,12 @@ class Decl:
 def package(seed, ndecls=14):
     r = random.Random(seed)
     decls = []
-    structs, consts, named, funcs, methods, globs = [], [], [], [], [], []
+    structs, consts, named, funcs, methods, globs, generics = [], [], [], [], [], [], []
     # a few simple names are shared between a function and a method (distinct Coq names: f vs T__f)
     shared = r.sample(METHOD_NAMES[:5], 2)
     for i in range(ndecls):
         level = i
-        kind = r.choice(["struct", "struct", "const", "named", "func", "func", "func", "method", "method", "global"])
+        kind = r.choice(["struct", "struct", "const", "named", "func", "func", "func", "method", "method", "global", "constgroup", "generic"])
         if kind == "method" and not structs:
             kind = "struct"
         if kind == "struct":
@@ -56,6 +56,29 @@ def package(seed, ndecls=14):
             else:
                 d.text = "const %s uint64 = %d\n" % (d.name, r.randrange(100))
             consts.append(d)
+        elif kind == "constgroup":
+            # one Go declaration, several Coq definitions; later members may mention earlier ones and outside constants
+            members = ["K%d_%d" % (i, j) for j in range(r.randrange(2, 4))]
+            d = Decl("constgroup", "CG%d" % i, list(members), level)
+            lines = []
+            for j, mname in enumerate(members):
+                if j > 0 and r.random() < 0.5:
+                    lines.append("\t%s uint64 = %s + %d" % (mname, members[r.randrange(j)], j))
+                elif consts and r.random() < 0.4:
+                    c = r.choice(consts)
+                    lines.append("\t%s uint64 = %s + %d" % (mname, c.name, j))
+                    d.deps.add(c.name)
+                else:
+                    lines.append("\t%s uint64 = %d" % (mname, r.randrange(100)))
+            d.text = "const (\n%s\n)\n" % "\n".join(lines)
+            for mname in members:
+                m = Decl("const", mname, [], level)        # a name usable by later declarations; emitted by the group
+                consts.append(m)
+        elif kind == "generic":
+            d = Decl("generic", "GN%d" % i, ["GN%d" % i], level)
+            d.text = ("func GN%d[T any](x T, n uint64) uint64 {\n\tif n == 0 {\n\t\treturn %d\n\t}\n\treturn GN%d[T](x, n-1) + 1\n}\n"
+                      % (i, r.randrange(9), i))
+            generics.append(d)
         elif kind == "global":
             d = Decl("global", "G%d" % i, ["G%d" % i], level)
             if consts and r.random() < 0.7:
@@ -89,7 +112,7 @@ def package(seed, ndecls=14):
                 sig = "func %s(x uint64) uint64" % fname
             body = ["\tvar acc uint64 = x"]
             for k in range(r.randrange(1, 5)):
-                c = r.randrange(12)
+                c = r.randrange(13)
                 if c == 0 and funcs:
                     f = r.choice(funcs)
                     body.append("\tacc = acc + %s(%d)" % (f.name, k))
@@ -132,6 +155,10 @@ def package(seed, ndecls=14):
                     t2 = r.choice(structs)
                     body.append("\tmp%d := make(map[uint64]*%s)\n\tacc = acc + uint64(len(mp%d))" % (k, t2.name, k))
                     d.deps.add(t2.name)
+                elif c == 11 and generics:
+                    gfn = r.choice(generics)
+                    body.append("\tacc = acc + %s[uint64](acc, 2) + %s(true, 1)" % (gfn.name, gfn.name))
+                    d.deps.add(gfn.name)
                 elif c == 10:
                     # self recursion through the recursive binder
                     if kind == "method":
